@@ -5,6 +5,10 @@ VERIF = os.path.dirname(os.path.dirname(os.path.abspath(__file__)))
 
 TRUST = "TLC 1.8.0 + CommunityModules Json; SQLite 3.40.1 (python sqlite3) as the definition of SQLite behaviour; "
 
+BT = 'BTree.tla transcribes the traversal algorithms of db/btree.go, low.go, payload.go (Iter/IterMin per page kind, sort.Search probes, overflow loading, done/err propagation, page cache, nested lookups) next to a declarative Reference (in-order walk, filter under Values.tla). '
+MB = " (M) TLC checks algorithm = Reference on all small trees of this slice (MC_BTree, one state per case). (B) On SQLite-written databases (page sizes 512..4096 quick, ..65536 thorough; fragmented, vacuumed, auto-vacuum, overflowing and deep trees) the real operations run under a tracing pager; TLC judges every recorded operation against the Reference evaluated on the abstract page graph an independent reader extracted from the same file, and compares the recorded lock/page/callback events with the transcribed algorithm's (conformance, reported as drift, never a verdict). (C) SQLite's own answer to the same query must equal the Reference, else exit 2."
+NOTE = TRUST
+
 CHECKS = {
  "C11": dict(
   technique="TLA+ spec Values.tla; TLC-exhaustive algebra on a core grid; trace validation of recorded compare/Equals/Search calls by TLC; spec validated against real SQLite",
@@ -23,6 +27,26 @@ CHECKS = {
        "the decoded values against RecordDecode(raw bytes read by an independent reader), against SQLite's own values, and the overflow pages read against OverflowPages(U,P).",
   note=TRUST + "independent file reader tools/vlib/sqlitefmt.py is cross-checked against SQLite per row (not trusted); exact value encoder; lengths beyond 3 pages and page sizes other than the swept ones are sampled only",
   design="6 C14, 3.2"),
+ "C01": dict(
+  technique="TLA+ spec BTree.tla (+Format, Values); TLC-exhaustive refinement on small trees; trace validation of recorded scans/selects by TLC; rows compared with real SQLite by TLC",
+  text=BT + "Slice: full scans of table and WITHOUT ROWID trees." + MB + " Plus: Select with column subsets/permutations, rowid/oid/_rowid_, alias and DEFAULT-completed columns compared value by value (storage class incl.) with SQLite's rows by TLC; payload lengths at every spill threshold; definitions sqlittle cannot interpret must give an error and no rows.",
+  note=NOTE + "independent reader vlib/sqlitefmt.py (cross-checked per query, not trusted); small-scope exhaustiveness (depth<=3, <=3 children, <=2 cells) plus sampled real files",
+  design="6 C01, 3.3"),
+ "C04": dict(
+  technique="TLA+ spec BTree.tla; TLC-exhaustive refinement on small table trees x every rowid; trace validation of recorded rowid lookups by TLC",
+  text=BT + "Slice: rowid lookup (Table.Rowid, SelectRowid, PKSelect on INTEGER PRIMARY KEY)." + MB + " Rowids: every present one (or all page-boundary ones + sample), both neighbours, deleted ones, separators, 0, int64 min/max.",
+  note=NOTE + "independent reader (cross-checked); rowids are exact dyadic values in the spec, no rank abstraction",
+  design="6 C04, 3.3"),
+ "C13": dict(
+  technique="TLA+ spec BTree.tla + Values.tla; TLC-exhaustive refinement on small index trees x every cut point; trace validation of recorded ScanMin/ScanEq/ScanRange by TLC",
+  text=BT + "Slice: from-key, range and equality scans." + MB + " Cut points: every stored entry's prefixes at page boundaries/interior cells/sample, neighbours of the last key column, other classes, empty and over-long keys, with the index's collations and directions.",
+  note=NOTE + "independent reader (cross-checked); Values.tla validated against SQLite by C11",
+  design="6 C13, 3.3"),
+ "C17": dict(
+  technique="TLA+ spec BTree.tla; TLC-exhaustive over small trees x every stop position; trace validation of recorded early-stopped scans by TLC",
+  text=BT + "Slice: the callback answers done on its k-th call, every scan kind." + MB + " k: every position for small results, else all page-boundary positions, neighbours and a sample; also checks on the recorded trace that the unlock directly follows the k-th callback.",
+  note=NOTE + "independent reader (cross-checked); release of the kernel lock itself is observed by C06",
+  design="6 C17, 3.3"),
 }
 
 NOT_YET = "check not built yet (work in progress; see DESIGN.md section 9 order of work)"
